@@ -59,6 +59,99 @@ func litReleasesFirst(lit *ir.Func, isRelease func(fn *ir.Func, root ast.Node) b
 	return !leak
 }
 
+// onceCopyOf follows `v := w` while v is defined exactly once anywhere in the declared function (also when v is a
+// variable captured by the literal fn) and w is not written on any path after that copy: the variable the value
+// was first held in.
+func onceCopyOf(fn *ir.Func, o types.Object) types.Object {
+	for i := 0; i < 4 && o != nil; i++ {
+		defs := wholeDefs(fn, o)
+		if len(defs) != 1 || defs[0].RHS == nil {
+			return o
+		}
+		src, isVar := fn.ObjOf(ast.Unparen(defs[0].RHS)).(*types.Var)
+		if !isVar || src.IsField() || types.Object(src) == o {
+			return o
+		}
+		if _, isID := ast.Unparen(defs[0].RHS).(*ast.Ident); !isID {
+			return o
+		}
+		// the unit that holds the copy
+		top := fn.Top()
+		var owner *ir.Func
+		for _, u := range append([]*ir.Func{top}, top.Lits...) {
+			if u.Body != nil && containsNode(u.Body, defs[0].LHS) {
+				if owner == nil || containsNode(owner.Body, u.Body) {
+					owner = u
+				}
+			}
+		}
+		if owner == nil {
+			return o
+		}
+		g := owner.Graph()
+		cn := g.NodeContaining(defs[0].LHS.Pos())
+		if cn == nil {
+			return o
+		}
+		var st []*cfgx.Visit
+		for _, e := range cn.Succs {
+			st = append(st, cfgx.StartAfter(e, 0))
+		}
+		for m := range g.Reach(st, nil) {
+			if m.AST == nil {
+				continue
+			}
+			for _, w := range owner.WritesIn(m.AST, true) {
+				if owner.ObjOf(rootOfLvalue(w.LHS)) == types.Object(src) {
+					return o
+				}
+			}
+		}
+		o = src
+	}
+	return o
+}
+
+// fieldInit: for `r.f` where the local r is defined once, by a literal `T{…, f: v, …}` or `&T{…}`, and r.f is not
+// assigned afterwards: v.
+func fieldInit(f *ir.Func, e ast.Expr) ast.Expr {
+	sel, ok := ast.Unparen(e).(*ast.SelectorExpr)
+	if !ok {
+		return nil
+	}
+	root, isVar := f.ObjOf(ast.Unparen(sel.X)).(*types.Var)
+	if !isVar || root.IsField() {
+		return nil
+	}
+	defs := wholeDefs(f, root)
+	if len(defs) != 1 || defs[0].RHS == nil {
+		return nil
+	}
+	rhs := ast.Unparen(defs[0].RHS)
+	if u, isAddr := rhs.(*ast.UnaryExpr); isAddr && u.Op == token.AND {
+		rhs = ast.Unparen(u.X)
+	}
+	cl, isLit := rhs.(*ast.CompositeLit)
+	if !isLit {
+		return nil
+	}
+	// no later store into the field
+	top := f.Top()
+	for _, w := range top.WritesIn(top.Body, true) {
+		if ws, isSel := ast.Unparen(w.LHS).(*ast.SelectorExpr); isSel && ws.Sel.Name == sel.Sel.Name && top.ObjOf(ast.Unparen(ws.X)) == types.Object(root) {
+			return nil
+		}
+	}
+	for _, el := range cl.Elts {
+		if kv, isKV := el.(*ast.KeyValueExpr); isKV {
+			if k, isID := kv.Key.(*ast.Ident); isID && k.Name == sel.Sel.Name {
+				return kv.Value
+			}
+		}
+	}
+	return nil
+}
+
 // slotFuncs: every function unit of package syncer (roots of the expanded view set and their literals), with
 // goroutine bodies brought to where they are started; the two subnet-slot operations stay calls.
 func slotFuncs(c *Ctx) []*ir.Func {
@@ -432,8 +525,15 @@ func c18r2(c *Ctx) {
 					return found
 				}
 				for _, rc := range fn.CallsIn(root, false) {
-					if rc.Fn == rel.Origin() && len(rc.Expr.Args) >= 1 && fn.ObjOf(rc.Expr.Args[0]) == f.ObjOf(key) && slotCallIs(fn, rc.Expr, false) {
-						return true
+					if rc.Fn == rel.Origin() && len(rc.Expr.Args) >= 1 && slotCallIs(fn, rc.Expr, false) {
+						// the same key, also when it travelled in a field of a per-request record (`rpc.subnet`)
+						a, k := fn.ObjOf(rc.Expr.Args[0]), f.ObjOf(key)
+						if init := fieldInit(fn, rc.Expr.Args[0]); init != nil {
+							a = fn.ObjOf(init)
+						}
+						if a != nil && k != nil && (a == k || copySource(fn, a) == k || copySource(fn, a) == copySource(f, k) || onceCopyOf(fn, a) == onceCopyOf(f, k)) {
+							return true
+						}
 					}
 				}
 				return false
@@ -902,6 +1002,12 @@ func c18r6(c *Ctx) {
 					ir.Walk(k.AST, false, func(x ast.Node) {
 						if sel, ok := x.(*ast.SelectorExpr); ok && sel.Sel.Name == "MaxInboundPeers" {
 							mentionsCap = true
+						}
+						// the cap handed to a helper as a parameter (`peers.admit(true, cfg.MaxInboundPeers, …)`)
+						if id, ok := x.(*ast.Ident); ok {
+							if sel, ok := ast.Unparen(origin(f, id)).(*ast.SelectorExpr); ok && sel.Sel.Name == "MaxInboundPeers" {
+								mentionsCap = true
+							}
 						}
 					})
 					if !mentionsCap || ls.At(f, k) != lsHeld {
